@@ -90,6 +90,15 @@ def o2(tier):
     from props import C09
     r = C09.sqlite_snapshot_ops(tier)
     r.oid = 'O2'
+    # hydration after a restart relies on list_group_snapshots returning the snapshots oldest first: the retention trim drops from the front
+    try:
+        ls = [S.parse_stmt(x) for x in S.program('lib.rs', 'list_group_snapshots') if x.upper().startswith('SELECT')]
+        r.cases += 1
+        if len(ls) != 1 or ls[0].order != [('created_at', 'ASC')] or not (len(ls[0].where) == 1 and ls[0].where[0][0] == 'group_id'):
+            r.fail('O2/list-order', f'list_group_snapshots is not "WHERE group_id = ? ORDER BY created_at ASC" ({ls[0].text[:120] if ls else "no SELECT"}): after a restart the manager would '
+                   'not trim the oldest snapshots (names sort lexicographically, epoch 10 before epoch 9)')
+    except S.SqlError as e:
+        r.broken(str(e))
     r.title = 'SQLite prune_expired_snapshots deletes exactly created_at < cutoff (z3, all 64-bit values); snapshot maintenance touches only the snapshot table (shared with C09-O3)'
     return r
 
